@@ -839,3 +839,10 @@ func (d *P4d) Decode(te *p4.TableEntry) *PEntry {
 	e, _ := d.decode(te, false)
 	return e
 }
+
+// SetDelay installs a random service delay for Write RPCs.
+func (d *P4d) SetDelay(f func() time.Duration) {
+	d.mu.Lock()
+	d.Delay = f
+	d.mu.Unlock()
+}
